@@ -141,6 +141,7 @@ func (q *rpcQueue) Pop(ctx context.Context) (*RPC, error) {
 			return nil, ErrQueueClosed
 		}
 	}
+	verifYieldQueue(q, verifPopTake)
 	rpc := q.queue.Pop()
 	q.spaceAvailable.Signal()
 	return rpc, nil
